@@ -30,7 +30,7 @@ LEVEL_NOTE = ("Trusted: SimRenderable's token bookkeeping (harness), CPython ref
               "only at generated collect operations). The harness never keeps a RenderData "
               "alive except where it plays the owning caller.")
 TIERS = {
-    "quick": {"runs": 1600, "max_ops": 18},
+    "quick": {"runs": 1000, "max_ops": 18},
     "thorough": {"runs": 90000, "max_ops": 25, "wall_cap": 1500},
 }
 EXHAUSTIVE_INNER = True
